@@ -29,6 +29,7 @@
 -/
 import BroodModel.Lemmas.CloneFrom
 import BroodModel.Lemmas.AllocAbs
+import BroodModel.Lemmas.Lockstep
 
 namespace Brood
 
@@ -125,6 +126,27 @@ theorem C10_clone_lockstep {w : World} (hi : Inv w) (e next : Nat) (opsa opsb : 
   obtain ⟨w', h1, h2, _, _, _, _, h7⟩ := clone_spec hi e next
   exact ⟨w', h1, fun ra rb => lockstep_run opsa opsb hops hi h2 (eqWorld_abs hi h2 h7) ra rb⟩
 
+
+/-- … and keep holding the same map: a clone and its original, fed the same admissible operations,
+are issued the same identifiers and stay equal as maps from identifiers to values (up to the
+component types' `PartialEq`), for every history. -/
+theorem C10_clone_lockstep_full {w : World} (hi : Inv w) (e next : Nat) (opsa opsb : List Op)
+    (hops : opsa.map Op.forget = opsb.map Op.forget) (hwt : ∀ op ∈ opsa, op.wt w.n) :
+    ∃ w', w.clone e next = .ok w' ∧
+      ∀ {a b : World} {ia ib : List Ident}, runIssued w opsa = .ok (a, ia) → runIssued w' opsb = .ok (b, ib) →
+        ia = ib ∧ ∀ id, entEqv (a.entity id) (b.entity id) = true := by
+  obtain ⟨w', h1, h2, h3, _, h5, _, h7⟩ := clone_spec hi e next
+  refine ⟨w', h1, ?_⟩
+  intro a b ia ib ra rb
+  have hmap : MapEqv w.entity w'.entity := by
+    intro id
+    rw [h5 id]
+    cases hx : w.entity id with
+    | none => rfl
+    | some r => exact rowEqv_clone e r
+  obtain ⟨r1, t⟩ := twin_run opsa opsb hops hi h2 ⟨h3.symm, eqWorld_abs hi h2 h7, hmap⟩ hwt ra rb
+  exact ⟨r1, t.map⟩
+
 end Brood
 
 #print axioms Brood.C10_clone
@@ -134,3 +156,4 @@ end Brood
 #print axioms Brood.C10_clone_from
 #print axioms Brood.C10_clone_from_keeps_working
 #print axioms Brood.C10_clone_lockstep
+#print axioms Brood.C10_clone_lockstep_full
